@@ -45,6 +45,11 @@ def run_rows(chk, prop, cmd, tier, seed, shards=6):
 
 
 def run_c07(chk, tier, seed):
+    # the oracle checks itself first: digit-sequence arithmetic and IntFromDecimalOk against native arithmetic / a direct definition
+    lim = 300 if tier == "thorough" else 70
+    res = tlc("MCDecimal", f"SPECIFICATION Spec\nCONSTANT Limit = {lim}\nINVARIANTS ArithOK RoundOK\n", "C07-mcdecimal", workers=8, timeout=1200)
+    require_clean(res, "MCDecimal (self-check of Decimal.tla / Numeric.tla)")
+    chk.add_tlc("MCDecimal", res, f"naturals 0..{lim} x 0..{lim}: Add/Sub/Cmp/MulSmall/Shl/signed ops = native; IntFromDecimalOk(u8/i8, a.t literals) = direct rounding definition")
     rows, bad = run_rows(chk, "C07", "num-rows-c07", tier, seed)
     for i in bad:
         r = rows[i]
